@@ -9,6 +9,9 @@ Correspondence (model = lean/PdtModel/Model/PathRes.lean through the compiled dr
   * API level: `load_files(roots, root_folder=root, issue_tracker=...)` fully consumed vs `loadFiles`
     over the observed world (folder listings, include lines): how the run ends and the ordered list of
     `open` / `listdir` events.
+  * histories: within one process the scratch tree is edited between consecutive loads of the same
+    specifications (folder/file <-> outward or inward symlink, symlink retargeted); each call is compared with
+    the model over the symlink map and world observed at that call and judged by the oracle at that call.
 Oracle (does not use the model): every `open` / `os.listdir` / `os.scandir` audit event of a run is on a path
 whose real path is inside the root; a specification whose target (documented rule: `file:` ignored, leading
 `/` or `\\` anchors at the root, else relative to the including folder; joined and resolved by pathlib) is
@@ -37,20 +40,25 @@ EXTRA = {
         "races are outside every theorem here",
         "a symbolic-link loop makes Path.resolve() raise RuntimeError (not LoadError); nothing is opened in that "
         "case; modelled as such and outside the property's two clauses",
-        "specifications contain no NUL character and no path component longer than NAME_MAX",
+        "no path component longer than NAME_MAX (a NUL character in a specification is in scope: ValueError of "
+        "resolve() becomes a reported LoadError, modelled and generated)",
     ],
     "explanation": "contained / no_access_before_check / trace_inside / inside_loaded_normally / "
                    "outside_reported / noncanonical_root_refuses_all (Props/C17.lean) are proved for every "
                    "specification, source, symlink map, world and work-list over the abstract file system. "
                    "The loader theorems hold for every resolver; the on-disk reading needs the resolver law "
-                   "'a fixpoint of resolve() is canonical', proved for the specified resolver (spec_resolver_lawful) and, "
-                   "for the faithful model of CPython 3.12's realpath, only on the branch that meets no symlink loop "
-                   "(py312_lawful_partial). PARTIAL in that, and in that the operating system is outside: both resolver "
-                   "models are compared with the real Path.resolve() on the scratch tree each run, not proved of it.",
+                   "'a fixpoint of resolve() is canonical', proved for the specified resolver (spec_resolver_lawful) and "
+                   "for the faithful model of CPython 3.12's realpath (py312_lawful: when it gives up at a symlink loop "
+                   "the plain walk over the same path never ends, so such a path cannot pass the final stat()). "
+                   "PARTIAL in that the operating system is outside: both resolver models are compared with the real "
+                   "Path.resolve() on the scratch tree each run, not proved of it.",
     "trusted_base": [
         "abstract file system: pathlib.Path.resolve / is_dir / iterdir / open are modelled (FS.resolve is specified "
         "in Lean and compared with the real Path.resolve() on the scratch tree each run)",
-        "sys.addaudithook reports every open / os.listdir / os.scandir made from Python code",
+        "sys.addaudithook reports every open / os.listdir / os.scandir made from Python code; every event of a "
+        "load is recorded wherever it points and judged by its real path, minus an allow-list of interpreter "
+        "prefixes (sys.prefix, standard library, sys.path entries, site-packages, pdtable source, /proc /sys /dev) "
+        "snapshotted before the first load",
     ],
 }
 
@@ -62,7 +70,7 @@ LOOP_FUEL = 400
 
 # --------------------------------------------------------------------------- audit hook (one per process)
 
-_AUDIT = {"installed": False, "active": False, "prefix": None, "events": [], "cwd": "/"}
+_AUDIT = {"installed": False, "active": False, "prefix": None, "events": [], "cwd": "/", "allow": []}
 
 
 def _hook(event, args):
@@ -80,9 +88,35 @@ def _hook(event, args):
         except Exception:      # noqa
             return
         ap = p if p.startswith("/") else st["cwd"].rstrip("/") + "/" + p
-        pre = st["prefix"]
-        if ap == pre or ap.startswith(pre + "/") or any(d in ap for d in ("etc/passwd", "etc/hostname")):
-            st["events"].append(("open" if event == "open" else "listdir", ap))
+        # EVERY event of the window is recorded, wherever it points; the allow-list is applied afterwards
+        st["events"].append(("open" if event == "open" else "listdir", ap))
+
+
+def _allow_list(T):
+    """prefixes the interpreter itself may read during a load (lazy imports, byte code, package data), taken
+    BEFORE the first watch window: the interpreter's prefixes, the standard library, every sys.path entry,
+    site-packages, the pdtable source dir, the harness dir, /proc /sys /dev.  Nothing that is the scratch dir,
+    inside it, or a parent of it is ever allow-listed."""
+    import site
+    import sysconfig
+    cands = [sys.prefix, sys.base_prefix, sys.exec_prefix, sys.base_exec_prefix, "/proc", "/sys", "/dev",
+             str(common.REPO), str(common.ROOT)]
+    cands += [q for q in sys.path if q]
+    cands += list(sysconfig.get_paths().values())
+    try:
+        cands += site.getsitepackages() + [site.getusersitepackages()]
+    except Exception:      # noqa
+        pass
+    out = set()
+    for c in cands:
+        try:
+            r = os.path.realpath(c)
+        except Exception:      # noqa
+            continue
+        if r == "/" or inside(T, r) or inside(r, T):
+            continue
+        out.add(r)
+    return sorted(out)
 
 
 def _install_hook():
@@ -104,6 +138,18 @@ class _Watch:
 
     def __exit__(self, *a):
         _AUDIT["active"] = False
+        ev, allow, T = _AUDIT["events"], _AUDIT["allow"], self.T
+        keep = []
+        for k, ap in ev:
+            if not inside(ap, T):
+                try:
+                    rp = os.path.realpath(ap)
+                except Exception:      # noqa
+                    rp = ap
+                if not inside(rp, T) and any(inside(rp, a) for a in allow):
+                    continue
+            keep.append((k, ap))
+        ev[:] = keep
 
 
 # --------------------------------------------------------------------------- scratch tree
@@ -197,17 +243,17 @@ _INC_CACHE = {}
 
 
 def include_lines(path):
-    """what pdtable's own reader extracts as include lines from a csv file (observed, not modelled here)"""
-    from pdtable import read_csv, BlockType
+    """what pdtable's own reader extracts as include lines from a csv / xlsx file (observed, not modelled here)"""
+    from pdtable import read_csv, read_excel, BlockType
     st = os.stat(path)
     key = (path, st.st_mtime_ns, st.st_size)
     if key not in _INC_CACHE:
         lines = []
         with warnings.catch_warnings():
             warnings.simplefilter("ignore")
-            for bt, b in read_csv(path):
+            for bt, b in (read_excel(path) if path.lower().endswith(".xlsx") else read_csv(path)):
                 if bt == BlockType.DIRECTIVE and b.name == "include":
-                    lines.extend(b.lines)
+                    lines.extend(str(x) for x in b.lines)
         _INC_CACHE[key] = lines
     return _INC_CACHE[key]
 
@@ -222,7 +268,7 @@ def snapshot_world(T):
             p = os.path.join(d, n)
             if os.path.islink(p):
                 continue
-            if Path(p).suffix.lower() == ".csv":
+            if Path(p).suffix.lower() in (".csv", ".xlsx"):
                 files.append(p)
                 inc = include_lines(p)
                 if inc:
@@ -316,6 +362,9 @@ def gen_spec(rng, T, src_folder):
     if rng.random() < 0.3:
         pre = rng.choice(["file:", "FILE:", "File:", "fIlE:", "file:file:", "file://", "fİle:", "file", "files:"])
         spec = pre + spec; tags.append("proto:" + pre)
+    if rng.random() < 0.04:
+        i = rng.randrange(0, len(spec) + 1)
+        spec = spec[:i] + "\0" + spec[i:]; tags.append("nul")
     for t in ("..", "ln_", "loop", "rootlink", "root2", "outside"):
         if t in spec:
             tags.append("has:" + t)
@@ -323,13 +372,15 @@ def gen_spec(rng, T, src_folder):
 
 
 PARTIAL_KEY = "C17:partial-resolve-after-symlink-loop"
+NUL_KEY = "escape:ValueError:nul-in-specification"
 
 
 def intended(root, spec, src):
     """target of a specification by the documented rule, computed with pathlib only (never pdtable, never
     the model).  Returns ("none",) | ("loop",) | ("path", canonical_str) | ("partial", str): the last when
     Path.resolve() itself returned a path that still has a symlink component (CPython <= 3.12 does that after
-    meeting a symlink loop) — then there is no trustworthy target and only the access oracle applies"""
+    meeting a symlink loop) — then there is no trustworthy target and only the access oracle applies
+    | ("invalid",): the operating system rejects the text as a path (embedded NUL): must be refused"""
     s = spec[5:] if spec[:5].lower() == "file:" else spec
     if s[:1] in ("/", "\\"):
         base = PurePosixPath(root) / s[1:]
@@ -341,6 +392,8 @@ def intended(root, spec, src):
         r = str(Path(base).resolve())
     except RuntimeError:
         return ("loop",)
+    except ValueError:
+        return ("invalid",)          # e.g. an embedded NUL character: denotes no location at all
     parts = [x for x in r.split("/") if x]
     cur = ""
     for x in parts:
@@ -391,7 +444,39 @@ def impl_resolve(root, spec, src, src_none_folder=False):
         return {"exc": type(e).__name__}
 
 
-def impl_load(T, root_arg, roots, raising):
+def write_xlsx_include(path, table_name, lines):
+    """a workbook whose only sheet holds one table and one include directive"""
+    import openpyxl
+    wb = openpyxl.Workbook()
+    ws = wb.active
+    for row in [["**" + table_name], ["all"], ["x"], ["-"], [1], [None], ["***include"]] + [[l] for l in lines] + [[None]]:
+        ws.append(row)
+    wb.save(path)
+    wb.close()
+
+
+def mem_loader(lines):
+    """a `mem:` protocol loader: its location has no local folder (`local_folder_path is None`), its reader opens
+    nothing and yields one include directive with the given lines"""
+    from pdtable import BlockType
+    from pdtable.auxiliary import Directive
+    from pdtable.io.load._protocol import LoadProxy
+    from pdtable.table_origin import NullLocationFile, LocationSheet, TableOrigin
+
+    class MemReader:
+        def read(self, load_location, orchestrator):
+            block = LocationSheet(file=load_location, sheet_name=None).make_location_block(row=0)
+            yield BlockType.DIRECTIVE, Directive("include", list(lines), TableOrigin(input_location=block))
+
+    class MemLoader:
+        def resolve(self, load_item, orchestrator):
+            return LoadProxy(load_location=NullLocationFile("mem", "mem:" + load_item.specification),
+                             reader=MemReader())
+
+    return MemLoader()
+
+
+def impl_load(T, root_arg, roots, raising, protocol_loaders=None):
     from pdtable import load_files, BlockType
     from pdtable.io.load import LoadError
     from pdtable.table_origin import InputIssueTracker, InputError
@@ -420,7 +505,8 @@ def impl_load(T, root_arg, roots, raising):
         try:
             with warnings.catch_warnings():
                 warnings.simplefilter("ignore")
-                for bt, b in load_files(roots, root_folder=root_arg, issue_tracker=tracker):
+                for bt, b in load_files(roots, root_folder=root_arg, issue_tracker=tracker,
+                                        additional_protocol_loaders=protocol_loaders):
                     if bt == BlockType.TABLE:
                         tables.append(b.name)
             end = "done"
@@ -485,6 +571,7 @@ def run(tier, seed, model_ok, translator, search=False):
     old_cwd = os.getcwd()
     T, tables = build_tree()
     _AUDIT["prefix"] = T
+    _AUDIT["allow"] = _allow_list(T)
     ops, pend = [], []
     try:
         root = T + "/root"
@@ -564,6 +651,8 @@ def _real_resolve(p):
         return str(Path(p).resolve())
     except RuntimeError:
         return {"exc": "RuntimeError"}
+    except ValueError:
+        return {"exc": "ValueError"}
 
 
 def _realpath_cases(rng, T, fs, n, ops, pend, out):
@@ -576,7 +665,11 @@ def _realpath_cases(rng, T, fs, n, ops, pend, out):
             p = "/".join(segs) or "."                    # relative to cwd
         else:
             p = rng.choice(["", "/", "//"]) + st + "/" + "/".join(segs)
+        if rng.random() < 0.05:
+            i = rng.randrange(0, len(p) + 1)
+            p = p[:i] + "\0" + p[i:]
         impl = _real_resolve(p)
+        out.count("realpath:impl:" + (impl["exc"] if isinstance(impl, dict) else "ok"))
         ops.append({"op": "pathres_realpath", "fs": fs, "p": p})
         pend.append(("Path.resolve() vs FS.py312Resolve (CPython 3.12 algorithm)", {"p": tok(p, T)}, impl,
                      lambda a: a["py312"]))
@@ -641,10 +734,11 @@ def _function_cases(rng, T, seed, fs, n, ops, pend, out, model_ok):
             if want[0] == "path" and inside(want[1], canon_root) and "ok" not in impl:
                 out.fail("specification whose target is inside the root was refused", case, impl,
                          tok(want[1], T), key="fn:refused-inside")
-            if (want[0] == "none" or (want[0] == "path" and not inside(want[1], canon_root))) \
+            if (want[0] in ("none", "invalid") or (want[0] == "path" and not inside(want[1], canon_root))) \
                     and impl != {"exc": "LoadError"}:
-                out.fail("specification whose target is outside the root was not a LoadError", case,
-                         {k: tok(v, T) for k, v in impl.items()}, "LoadError", key="fn:not-refused")
+                out.fail("specification whose target is outside the root (or is no path at all) was not a "
+                         "LoadError", case, {k: tok(v, T) for k, v in impl.items()}, "LoadError",
+                         key=NUL_KEY if want[0] == "invalid" else "fn:not-refused")
             out.count("want:" + want[0] + (":in" if want[0] == "path" and inside(want[1], canon_root) else
                                            ":out" if want[0] == "path" else ""))
             case["want"] = want[0]
@@ -655,7 +749,7 @@ def _function_cases(rng, T, seed, fs, n, ops, pend, out, model_ok):
 
 PLACEMENTS = ["root_item", "root_item", "include_root", "include_root", "include_nested", "include_nested",
               "include_via_link", "default_roots", "folder_then_include", "folder_then_include", "folder_then_item",
-              "include_root_folder_then_hostile"]
+              "include_root_folder_then_hostile", "include_xlsx", "include_mem"]
 
 # specifications aimed at entries directly in the PARENT of the root folder (file and folder), and deeper ones;
 # `$T` is replaced by the scratch directory.  Relative forms are for a file at the top level of the root.
@@ -687,13 +781,14 @@ def _judge_load(out, case, T, root, spec, planted_src, raising, end, events, got
             break
     # ---- oracle 2: outside => reported LoadError; inside => loaded normally
     if planted_src != "unplantable":
-        if want[0] == "none" or (want[0] == "path" and not inside(want[1], root)):
+        if want[0] in ("none", "invalid") or (want[0] == "path" and not inside(want[1], root)):
             ok = (end == {"exc": "InputError" if raising else "LoadError"}) and reported
             if not ok:
-                out.fail("specification whose target is outside the root was not reported as a load error",
+                out.fail("specification whose target is outside the root (or is no path at all) was not reported "
+                         "as a load error",
                          case, {"end": end, "refused": [[tok(a, T), tok(b, T)] for a, b in refused]},
                          "LoadError reported and raised",
-                         key="api:not-refused")
+                         key=NUL_KEY if want[0] == "invalid" else "api:not-refused")
             out.count("api:want-out")
         elif want[0] == "path":
             tgt = want[1]
@@ -735,6 +830,7 @@ def _api_cases(rng, T, tables, seed, fs, n, ops, pend, out, model_ok):
             raising = False
         root_arg = root if rng.random() < 0.6 else Path(root)
         created = []
+        protocol_loaders, mem_lines = None, None
         try:
             if placement in ("folder_then_include", "include_root_folder_then_hostile"):
                 # state carried across the items of ONE load: the root folder itself is an item first, a hostile
@@ -756,6 +852,36 @@ def _api_cases(rng, T, tables, seed, fs, n, ops, pend, out, model_ok):
                 planted_src = root
                 if spec not in include_lines(inc):
                     out.count("api:not-plantable")
+                    planted_src = "unplantable"
+            elif placement == "include_xlsx":
+                # the including location is a sheet block of a workbook at the top level of the root
+                spec, tags = gen_spec(rng, T, root)
+                inc = os.path.join(root, f"inc{idx}.xlsx")
+                benign = rng.choice(["/sub/c.csv", "a.csv", "/UP.CSV"])
+                lines = [benign, spec] if rng.random() < 0.7 else [spec, benign]
+                try:
+                    write_xlsx_include(inc, f"t_inc{idx}", lines)
+                except Exception:      # noqa  (openpyxl refuses control characters in a cell)
+                    spec, tags = "/ln_out_dir/secret.csv", ["has:ln_", "xlsx-fallback"]
+                    lines = [benign, spec]
+                    write_xlsx_include(inc, f"t_inc{idx}", lines)
+                created.append(inc)
+                tags = tags + ["xlsx"]
+                roots = [f"/inc{idx}.xlsx"]
+                planted_src = root
+                if spec not in include_lines(inc):
+                    out.count("api:not-plantable")
+                    planted_src = "unplantable"
+            elif placement == "include_mem":
+                # the including location has no local folder (`local_folder_path is None`): a `mem:` protocol source
+                spec, tags = gen_spec(rng, T, None)
+                benign = rng.choice(["/sub/c.csv", "/a.csv", "/UP.CSV", "file:/b.csv"])
+                mem_lines = [benign, spec] if rng.random() < 0.7 else [spec, benign]
+                protocol_loaders = {"mem": mem_loader(mem_lines)}
+                tags = tags + ["mem"]
+                roots = ["mem:x"]
+                planted_src = None
+                if spec.lower().startswith("mem:"):
                     planted_src = "unplantable"
             elif placement == "folder_then_item":
                 # two root items: a folder is processed first (it is LAST in the list: pop() takes from the end),
@@ -804,7 +930,7 @@ def _api_cases(rng, T, tables, seed, fs, n, ops, pend, out, model_ok):
             case = {"level": "api", "seed": seed, "index": idx, "placement": placement, "spec": tok(spec, T),
                     "roots": [tok(r, T) for r in roots] if roots is not None else None, "raising_tracker": raising,
                     "root_as": type(root_arg).__name__, "tags": tags}
-            end, events, got_tables, refused = impl_load(T, root_arg, roots, raising)
+            end, events, got_tables, refused = impl_load(T, root_arg, roots, raising, protocol_loaders)
             evs = [[k, p] for k, p in events]
             out.count("api:" + placement + ":" + (end if isinstance(end, str) else end["exc"]))
             hostile = bool(set(tags) - {"plain", "rooted", "relative", "default"}) or end != "done"
@@ -812,7 +938,10 @@ def _api_cases(rng, T, tables, seed, fs, n, ops, pend, out, model_ok):
             _judge_load(out, case, T, root, spec, planted_src, raising, end, events, got_tables, refused, tables)
             if model_ok:
                 world = snapshot_world(T)
-                ops.append({"op": "pathres_load", "root": str(root_arg), "roots": roots, "fs": fs, "world": world,
+                # a `mem:` source opens nothing and has no folder: its include lines are items without a source,
+                # pushed in order — exactly what root items are in the model
+                ops.append({"op": "pathres_load", "root": str(root_arg),
+                            "roots": mem_lines if mem_lines is not None else roots, "fs": fs, "world": world,
                             "tracker_raises": raising, "loop_fuel": LOOP_FUEL})
                 pend.append(("load_files vs loadFiles (end, open/listdir events in order)", case,
                              {"end": end, "events": evs},
